@@ -268,12 +268,8 @@ def javac_rounds(ctx, jr, cases, frames, max_rounds=6):
             by_cls.setdefault(c.cls, []).append(c)
     alive = {cls: list(cs) for cls, cs in by_cls.items()}
     jr.write("VfDriver.java", DRIVER)
-    rc, diag = jr.javac(["VfDriver.java"])
-    if rc != 0:
-        ctx.inconclusive("javac rejects the harness driver: " + diag[:300])
-        return set()
     for rnd in range(max_rounds):
-        files = []
+        files = ["VfDriver.java"] if rnd == 0 else []
         linemap = {}
         for cls, cs in alive.items():
             if not cs:
@@ -290,7 +286,9 @@ def javac_rounds(ctx, jr, cases, frames, max_rounds=6):
             jr.write(rel, text)
             files.append(rel)
             linemap[rel] = spans
-        if not files:
+        if not files or files == ["VfDriver.java"]:
+            if files:
+                jr.javac(files)
             return set()
         # -XDshould-stop.ifError=FLOW: report attribution *and* flow errors (definite assignment, missing return) in one pass
         rc, diag = jr.javac(files, timeout=900, extra=["-XDshould-stop.ifError=FLOW", "-Xlint:none"])
@@ -399,8 +397,10 @@ def interp_expected(ctx, cases, step_cap=20000):
         ctx.maxi("interp_max_steps", prog.max_steps)
 
 
-def pipeline(ctx, cases, deadline_ms=1500):
-    """bytecode -> DEX -> DAD -> javac (elimination rounds) -> one JVM; interpreter expectations. Mutates the cases."""
+def pipeline(ctx, cases, deadline_ms=1000, refs=None):
+    """bytecode -> DEX -> DAD -> javac (elimination rounds) -> one JVM; interpreter expectations. Mutates the cases.
+    refs: optional list of reference cases (own Java rendering of the generator AST, package q) compiled and run in the same javac/JVM
+    invocations to cross-check the interpreter; they carry .src and a (header, footer) frame in .meta["frame"]."""
     import time
     if not J.available():
         ctx.inconclusive("javac/java not found")
@@ -410,11 +410,16 @@ def pipeline(ctx, cases, deadline_ms=1500):
     t1 = time.time()
     frames = decompile_cases(ctx, cases)
     t2 = time.time()
+    allc = list(cases)
+    if refs:
+        for r in refs:
+            frames[r.cls] = r.meta["frame"]
+        allc += refs
     jr = J.JavaRun()
     try:
-        compiled = javac_rounds(ctx, jr, cases, frames)
+        compiled = javac_rounds(ctx, jr, allc, frames)
         t3 = time.time()
-        run_jvm(ctx, jr, cases, compiled, deadline_ms)
+        run_jvm(ctx, jr, allc, compiled, deadline_ms)
         t4 = time.time()
     finally:
         jr.close()
@@ -583,11 +588,17 @@ def what_of(symptom):
 def phase_single(ctx, arg):
     """P0 + P1: single-subject methods. Returns through ctx.extra['bad_features'] = {feature: {symptom: mechanism}}"""
     rng = ctx.rng("c21-single", arg.get("salt", 0))
-    methods = G.p0_methods(rng) + G.p1_methods(rng) + G.pattern_methods(rng)
+    part = arg.get("part", "all")
+    methods = []
+    if part in ("all", "ops"):
+        methods += G.p0_methods(rng) + G.p1_methods(rng)
+    if part in ("all", "PC", "PS", "PD"):
+        methods += [m for m in G.pattern_methods(rng) if part == "all" or m.pool == part or (part == "PS" and m.pool == "PD")]
     tc = {}
     cases = to_cases(methods, "S", rng, tc)
-    pipeline(ctx, cases)
-    crosscheck_interp(ctx, cases, "S")
+    refs = make_refs(cases)
+    pipeline(ctx, cases, refs=refs)
+    crosscheck_interp(ctx, refs)
     bad = judge(ctx, cases, "single")
     table = {}
     failing_subjects = {c.meta.subject for c, _, _ in bad}
@@ -605,40 +616,34 @@ def phase_single(ctx, arg):
     return table
 
 
-def crosscheck_interp(ctx, cases, tag):
-    """harness self-check: the generator's AST printed as Java (NOT the decompiler) must agree with the interpreter on every tuple"""
-    clones = []
-    frames = {}
+def make_refs(cases):
+    """reference cases: the generator's AST printed as Java (NOT the decompiler), same tuples"""
+    refs = []
     for c in cases:
+        cls = "q/X%s" % c.cls.split("/")[1]
+        k = Case(cls, c.name, c.ret, c.params, c.registers, c.ins, c.units, c.tuples,
+                 meta={"frame": ("package q;\npublic class %s {\n" % cls.split("/")[1], "}\n"), "of": c})
+        k.src = "\n" + G.to_java(c.meta)
+        refs.append(k)
+    return refs
+
+
+def crosscheck_interp(ctx, refs):
+    """harness self-check: interpreter == JVM on the generator's own Java rendering of every method"""
+    for k in refs:
+        c = k.meta["of"]
         if c.expected is None:
             continue
-        cls = "q/X%s" % c.cls.split("/")[1]
-        k = Case(cls, c.name, c.ret, c.params, c.registers, c.ins, c.units, c.tuples, meta=c.meta)
-        k.src = "\n" + G.to_java(c.meta)
-        k.expected = c.expected
-        frames[cls] = ("package q;\npublic class %s {\n" % cls.split("/")[1], "}\n")
-        clones.append(k)
-    if not clones:
-        return
-    jr = J.JavaRun()
-    try:
-        ok = javac_rounds(ctx, jr, clones, frames, max_rounds=1)
-        ctx.counters["javac_invocations"] = ctx.counters.get("javac_invocations", 1) - 1
-        ctx.count("crosscheck_javac_invocations")
-        if len(ok) != len(clones):
-            d = [k.diags[0][0] for k in clones if k.diags][:2]
-            ctx.inconclusive("harness: the generator's own Java rendering is rejected by javac: %s" % d)
-            return
-        before = ctx.counters.get("jvm_methods_run", 0), ctx.counters.get("jvm_runs", 0)
-        run_jvm(ctx, jr, clones, ok)
-        ctx.counters["jvm_methods_run"], ctx.counters["jvm_runs"] = before
-    finally:
-        jr.close()
-    for k in clones:
+        if k.diags:
+            ctx.inconclusive("harness: the generator's own Java rendering is rejected by javac: %s\n%s" % (k.diags[0][0], k.src))
+            continue
         if not isinstance(k.jvm, list):
-            ctx.inconclusive("harness: reference Java of %s did not run: %s" % (k.key, k.jvm))
+            if k.jvm is not None:
+                ctx.inconclusive("harness: reference Java of %s did not run: %s" % (k.key, k.jvm))
             continue
         ctx.count("crosscheck_methods")
+        ctx.counters["jvm_methods_run"] = ctx.counters.get("jvm_methods_run", 1) - 1
+        k.expected = c.expected
         mm = first_mismatch(k)
         if mm is not None:
             ctx.inconclusive("harness: interpreter and JVM disagree on the generator's own AST: %s args=%s interp=%s jvm=%s\n%s" % (
@@ -652,9 +657,10 @@ def phase_multi(ctx, arg):
     methods = G.random_methods(rng, pool, n)
     tc = {}
     cases = to_cases(methods, pool, rng, tc)
-    pipeline(ctx, cases)
-    if arg.get("crosscheck"):
-        crosscheck_interp(ctx, cases, pool)
+    refs = make_refs(cases) if arg.get("crosscheck") else None
+    pipeline(ctx, cases, refs=refs)
+    if refs:
+        crosscheck_interp(ctx, refs)
     bad = judge(ctx, cases, pool)
     for c in cases:
         if c.src and isinstance(c.jvm, list) and len(ctx.samples) < 1 and len(c.units) < 60:
@@ -753,7 +759,7 @@ def run(ctx):
         ctx.inconclusive("javac/java not found")
         return
     salts = [0] if ctx.quick else [0, 1, 2, 3]
-    res = ctx.run_shards(MOD, "phase_single_shard", [{"salt": s} for s in salts], timeout=900)
+    res = ctx.run_shards(MOD, "phase_single_shard", [{"salt": s, "part": p} for s in salts for p in ("ops", "PC", "PS")], timeout=900)
     table = {}
     for r in res:
         if r is None:
@@ -771,7 +777,7 @@ def run(ctx):
             n -= take
             k += 1
     ctx.run_shards(MOD, "phase_multi", args, timeout=1800)
-    ctx.require_counter("methods_single", 400)
+    ctx.require_counter("methods_single", 900)
     for pool in pools:
         ctx.require_counter("methods_" + pool, 10)
     ctx.require_counter("methods_decompiled", 100)
